@@ -49,6 +49,14 @@ func ResolveRef(root interface{}, ref *Ref) (*Schema, error) {
 			return nil, err
 		}
 		return newSch, nil
+	case *SchemaOrBool, SchemaOrBool, *SchemaOrArray, SchemaOrArray, *SchemaOrStringArray, SchemaOrStringArray:
+		// a typed root holds the schemas at "items", "additionalProperties", "additionalItems" and "dependencies"
+		// in union wrappers: decode their JSON form, as the resolution with a base does
+		newSch := new(Schema)
+		if err = swag.DynamicJSONToStruct(sch, newSch); err != nil {
+			return nil, err
+		}
+		return newSch, nil
 	default:
 		return nil, fmt.Errorf("type: %T: %w", sch, ErrUnknownTypeForReference)
 	}
